@@ -657,6 +657,10 @@ def per_activation_state(chk, rule="O19.1"):
                         where = shared[n_.func.value.id]
                 elif isinstance(n_, (ast.Assign, ast.AugAssign)):
                     for t in n_.targets if isinstance(n_, ast.Assign) else [n_.target]:
+                        # re-binding an attribute to a fresh object is harmless as long as the walk works on locals;
+                        # changing the object behind it in place (x[k] = v, x += v) is what the activations share
+                        if not isinstance(t, ast.Subscript) and not isinstance(n_, ast.AugAssign):
+                            continue
                         base = t.value if isinstance(t, ast.Subscript) else t
                         d = util.dotted(base)
                         if d and d.startswith("self.") and d.count(".") == 1:
